@@ -4,7 +4,7 @@
 // record is sent through the real DeckOutput (with and without line splitting) and the text is tokenised: pending
 // defaults must appear as exactly one "k*" token, k = the number stashed, immediately before the next explicit value;
 // trailing defaults are dropped at end_record; nothing else is emitted.  Exit 1 = an operation sequence on which the
-// text differs.
+// text differs.  Doubles of ordinary and extreme magnitude must re-read to the value at the printed precision.
 #include "replay.hpp"
 #include <opm/input/eclipse/Deck/DeckOutput.hpp>
 #include <sstream>
@@ -48,5 +48,33 @@ int main(int argc, char** argv)
                     return r.verdict(false, w.str());
                 }
             }
+    // floating-point values: the token written for a double re-reads (strtod) to the value at the stream precision (10
+    // significant digits), for ordinary and extreme magnitudes and both signs
+    {
+        const double vals[] = {0.0, 1.0, -1.0, 0.1, 1.0/3.0, -1.23456789012e-05, 123456789.123, 9.87654321098e+150, -9.87654321098e-150,
+                               1.5e308, -1.5e308, 2.2250738585072014e-308, -2.2250738585072014e-308,
+                               6.02214076e23, -1.602176634e-19, 273.15, 1e10, 1e-10, 123456.7891, -99999.99999};
+        for (double v : vals) {
+            std::ostringstream os;
+            {
+                Opm::DeckOutput out(os, 10);
+                out.start_keyword("KW", false);
+                out.start_record();
+                out.write(v);
+                out.end_record();
+                out.end_keyword(false);
+            }
+            std::istringstream is(os.str()); std::string kw, tok;
+            is >> kw >> tok;
+            char* e = nullptr;
+            const double back = std::strtod(tok.c_str(), &e);
+            const bool ok = e && *e == '\0' && std::fabs(back - v) <= 1e-9 * std::fabs(v);
+            if (!ok) {
+                char b[64]; std::snprintf(b, sizeof b, "%.17g", v);
+                w << "the double " << b << " is written as \"" << tok << "\", which does not re-read to the value at 10 significant digits";
+                return r.verdict(false, w.str());
+            }
+        }
+    }
     return r.verdict(true, "default run-length encoding matches on every operation sequence of length <= 7 (bounded native search)");
 }
